@@ -173,6 +173,16 @@ def shard(job):
                 continue
             for o in (OPTS[0], OPTS[3]):
                 check_T(col, name, u, tu, o)
+        if comp in ("path", "query") and toks[-1].strip() == "":
+            # whitespace right before the fragment mark is INSIDE the URL (it is not surrounding whitespace), whether or not the fragment is then dropped
+            pf = dict(p, fragment=["f"])
+            uf = build(pf)
+            for o in OPTS:
+                check_base(col, uf, o)
+            for name, vp in transforms(pf):
+                if name in ("escaped-vs-raw", "empty-query-mark", "dot-segment", "host-case"):
+                    for o in (OPTS[0], OPTS[3]):
+                        check_T(col, name, uf, build(vp), o)
     return col.partial()
 
 
